@@ -35,6 +35,7 @@ import numpy as np  # noqa: E402
 EMPTY = -1
 NONUNIFORM = -2
 BADTICK = -99999
+BADLABEL = -3      # a result slice that is not labelled with row / column indices
 TICK = 1024  # ticks per second
 
 GROUPS = ("scene_generation", "photon_collection", "phasing", "charge_generation",
@@ -146,10 +147,16 @@ def make_scene_source(token: int):
 
 
 def data_token(tree) -> int:
+    """Token of a processed-data tree written by set_data_token: the value, provided the groups that hold no
+    data variable (coordinates only, attributes only, nothing at all) are there as well."""
     try:
         if tree is None or "probe" not in tree:
             return EMPTY
-        return int(tree["probe"]["tok"].values)
+        tok = int(tree["probe"]["tok"].values)
+        ok = ("probe_axis" in tree and [int(v) for v in tree["probe_axis"].to_dataset().coords["t"].values] == [0, 1, tok]
+              and "probe_attrs" in tree and int(tree["probe_attrs"].attrs.get("tok", -7)) == tok
+              and "probe_leaf" in tree)
+        return tok if ok else NONUNIFORM
     except Exception:
         return NONUNIFORM
 
@@ -157,6 +164,9 @@ def data_token(tree) -> int:
 def set_data_token(detector, token: int) -> None:
     import xarray as xr
     detector.data["/probe"] = xr.DataTree(xr.Dataset({"tok": ((), token)}))
+    detector.data["/probe_axis"] = xr.DataTree(xr.Dataset(coords={"t": [0, 1, token]}))      # coordinates only
+    detector.data["/probe_attrs"] = xr.DataTree(xr.Dataset(attrs={"tok": token}))           # attributes only
+    detector.data["/probe_leaf"] = xr.DataTree()                                            # an empty leaf
 
 
 def project_buckets(detector) -> dict:
@@ -228,14 +238,23 @@ def project_result(dt) -> dict:
             sl = var.isel(time=k) if "time" in var.dims else var
             if "y" in sl.dims and "x" in sl.dims and sl.ndim == 2:
                 ny, nx = sl.sizes["y"], sl.sizes["x"]
-                # read through the labels, not the storage order
-                arr = np.array([[sl.sel(y=yy, x=xx).item() for xx in range(nx)] for yy in range(ny)],
-                               dtype=sl.dtype)
+                # read through the labels, not the storage order; a result that is not labelled with the row
+                # and column indices 0..n-1 has no readable content
+                try:
+                    arr = np.array([[sl.sel(y=yy, x=xx).item() for xx in range(nx)] for yy in range(ny)],
+                                   dtype=sl.dtype)
+                except (KeyError, ValueError):
+                    slices.append({"label": lab, "level": BADLABEL})
+                    continue
                 if arr.dtype.kind == "f" and np.isnan(arr).all():
                     lvl = EMPTY
                 else:
                     lvl = level_of(arr)
             elif "wavelength" in sl.dims and sl.ndim == 3:
+                if [float(v) for v in sl["y"].values] != list(range(sl.sizes["y"])) or \
+                        [float(v) for v in sl["x"].values] != list(range(sl.sizes["x"])):
+                    slices.append({"label": lab, "level": BADLABEL})
+                    continue
                 vals = np.asarray(sl.transpose("wavelength", "y", "x").values)
                 lv = {level_of(vals[w] - w / 64.0) for w in range(vals.shape[0])}
                 lvl = lv.pop() if len(lv) == 1 else NONUNIFORM
@@ -320,7 +339,8 @@ def stored_detector_file(stored: dict, shape=(2, 3), kind="ccd") -> str:
     import hashlib
     d = os.path.join(os.environ.get("VERIF_WORK", VERIF + "/.work"), "flux_files")
     os.makedirs(d, exist_ok=True)
-    h = hashlib.sha1(json.dumps([stored, shape, kind], sort_keys=True).encode()).hexdigest()[:12]
+    # (the tag changes whenever load_prior / set_data_token change what they write)
+    h = hashlib.sha1(json.dumps([stored, shape, kind, "layout-2"], sort_keys=True).encode()).hexdigest()[:12]
     f = os.path.join(d, f"detector_{h}.asdf")
     if not os.path.exists(f):
         det = make_detector(kind, *shape)
